@@ -299,26 +299,17 @@ class FourierTransformer(BilateralForwardTransformer):
                     return -I * const * pi * tanh(pi**2 * sf)
             elif other.is_Function and other.func == tanh and other.args[0] == t:
                 return -I * const * pi / sinh(pi**2 * sf)
-            elif (other.is_Mul and other.args[0] == t and
+            elif (other.is_Mul and len(other.args) == 2 and other.args[0] == t and
                   other.args[1].is_Pow and other.args[1].args[1] == -1 and
-                  other.args[1].args[0].is_Add and
-                  not (other.args[1].args[0].args[0] / t).has(t) and
-                  not other.args[1].args[0].args[1].has(t)):
-                a = other.args[1].args[0].args[0] / t
-                b = other.args[1].args[0].args[1] * I
-
-                # t / (a * t - j * b)
-                return const * (DiracDelta(sf) / a - 2 * pi * b / a**2 * exp(2 * pi * b / a * sf) * Heaviside(f))
-            elif (other.is_Mul and other.args[0] == t and
-                  other.args[1].is_Pow and other.args[1].args[1] == -1 and
-                  other.args[1].args[0].is_Add and
-                  not (other.args[1].args[0].args[1] / t).has(t) and
-                  not other.args[1].args[0].args[0].has(t)):
-                b = other.args[1].args[0].args[0] * I
-                a = other.args[1].args[0].args[1] / t
-
-                # t / (j * b - a * t)
-                return const * (DiracDelta(sf) / a - 2 * pi * b / a**2 * exp(2 * pi * b / a * sf) * Heaviside(f))
+                  other.args[1].args[0].is_polynomial(t) and
+                  other.args[1].args[0].as_poly(t).is_linear):
+                # t / (c1 * t + c0) = 1 / c1 - c0 / c1 / (c1 * t + c0);
+                # the second term depends on the half-plane of the pole.
+                foo = other.args[1].args[0]
+                c0 = foo.coeff(t, 0)
+                c1 = foo.coeff(t, 1)
+                return const1 * (self.term(1 / c1, t, f) -
+                                 c0 / c1 * self.term(1 / foo, t, f))
 
             if expr == t * DiracDelta(t, 1):
                 return const * sf / (-I * 2 * pi)
